@@ -17,6 +17,7 @@ UnsupportedOperationError is modelled as Err GenerationError (see translator/t5_
 import collections
 import contextlib
 import random
+import sys
 
 from framework import coqrun
 from . import coqterm as ct
@@ -78,7 +79,9 @@ def pattern_cases(rng, n_cases):
         else:
             name = rng.choice(BOGUS_NAMES)
         want = 1 if name == 'NOT' else 2
-        k = want if rng.random() < 0.8 else rng.randint(0, 3)
+        k = want if rng.random() < 0.7 else rng.randint(0, 3)
+        if name in subcorr.NARY and rng.random() < 0.3:
+            k = rng.randint(3, 5)
         ops = [rng.choice([0, mx, rng.randint(0, mx), rng.randint(0, mx)]) for _ in range(k)]
         try:
             res = ('ok', po.eval_pattern(list(ops), name))
@@ -251,7 +254,9 @@ def _brief(c):
 class Recorder:
     def __init__(self):
         self.steps = []
+        self.merges = []        # steps of the all-outputs-trivial branch (output merged into a leaf)
         self.current = None     # the _Subcircuit whose truth table was last requested
+        self.pending = None     # state before the merge that is in progress
 
 
 @contextlib.contextmanager
@@ -261,6 +266,40 @@ def recording():
     rec = Recorder()
     orig_replace = Circuit.replace_subcircuit
     orig_tt = sc._Subcircuit.evaluate_truth_table_with_dont_cares
+    orig_users = Circuit.get_gate_users
+    orig_remove = Circuit.remove_gate
+
+    # The all-outputs-trivial branch rewires the users of `output` to the leaf `new_output` by hand
+    # and then calls circuit.remove_gate(output).  Its first action on the circuit is
+    # circuit.get_gate_users(output) from the frame of minimize_subcircuits: the state is
+    # dumped there (before), and again after remove_gate returns (after).
+    def get_gate_users(self, label):
+        f = sys._getframe(1)
+        if f.f_code.co_name == 'minimize_subcircuits':
+            loc = f.f_locals
+            if loc.get('circuit') is self and loc.get('output') == label and 'new_output' in loc \
+                    and loc.get('outputs_mapping', {}).get(label) == loc['new_output']:
+                sub = loc['subcircuit']
+                rec.pending = {'before': ct.dump_circuit(self), 'o': label, 'l': loc['new_output'],
+                               'leaves': list(sub.inputs), 'care': list(sub.inputs_tt)}
+        return orig_users(self, label)
+
+    def remove_gate(self, label):
+        f = sys._getframe(1)
+        mine = (f.f_code.co_name == 'minimize_subcircuits' and rec.pending is not None
+                and rec.pending['o'] == label)
+        if not mine:
+            return orig_remove(self, label)
+        step, rec.pending = rec.pending, None
+        try:
+            out = orig_remove(self, label)
+        except Exception as e:  # noqa: BLE001
+            step['result'] = ('err', ct.err_name(e))
+            rec.merges.append(step)
+            raise
+        step['result'] = ('ok', ct.dump_circuit(self))
+        rec.merges.append(step)
+        return out
 
     def replace_subcircuit(self, subcircuit, inputs_mapping, outputs_mapping):
         step = {'before': ct.dump_circuit(self), 'sub': ct.dump_circuit(subcircuit),
@@ -282,11 +321,15 @@ def recording():
         return orig_tt(self)
 
     Circuit.replace_subcircuit = replace_subcircuit
+    Circuit.get_gate_users = get_gate_users
+    Circuit.remove_gate = remove_gate
     sc._Subcircuit.evaluate_truth_table_with_dont_cares = evaluate_truth_table_with_dont_cares
     try:
         yield rec
     finally:
         Circuit.replace_subcircuit = orig_replace
+        Circuit.get_gate_users = orig_users
+        Circuit.remove_gate = orig_remove
         sc._Subcircuit.evaluate_truth_table_with_dont_cares = orig_tt
 
 
@@ -347,3 +390,32 @@ def validate_steps(prop_id, r, runs, model_ok):
                 rejected_runs.append((i, st, 'rejected on the care set'))
     r.count('step validation', 'rejected', len(rejected_runs))
     return rejected_runs
+
+
+def merge_term(st, care):
+    k = 'None' if care is None else f'(Some {vecs(str_vec(s) for s in care)})'
+    return (f'({ct.circuit(st["before"])}, {ct.circuit(st["result"][1])}, {ct.labels(st["leaves"])}, '
+            f'{ct.s(st["o"])}, {ct.s(st["l"])}, {k})')
+
+
+def validate_merges(prop_id, r, runs, model_ok):
+    """runs: list of (case, [merge steps]).  Returns [(run index, step, why)] for rejected steps."""
+    flat = [(i, st) for i, (_, ms) in enumerate(runs) for st in ms]
+    r.count('trivial-branch steps', 'recorded (output merged into a leaf)', len(flat))
+    for _, st in flat:
+        r.count('trivial-branch remove_gate result', 'returned' if st['result'][0] == 'ok' else st['result'][1])
+    ok = [(i, st) for i, st in flat if st['result'][0] == 'ok']
+    if not model_ok or not ok:
+        return []
+    bad_all = coqrun.run_cases(prop_id, 'mergeall', HEADER, [merge_term(st, None) for _, st in ok],
+                               'check_merge_case', 'merge_case')
+    r.count('trivial-branch validation', 'accepted on all 2^k leaf vectors', len(ok) - len(bad_all))
+    rejected = []
+    if bad_all:
+        retry = [ok[j] for j in bad_all]
+        bad_care = set(coqrun.run_cases(prop_id, 'mergecare', HEADER, [merge_term(st, st['care']) for _, st in retry],
+                                        'check_merge_case', 'merge_case'))
+        r.count('trivial-branch validation', 'accepted on the care set only', len(retry) - len(bad_care))
+        rejected = [(i, st, 'merge rejected on the care set') for j, (i, st) in enumerate(retry) if j in bad_care]
+    r.count('trivial-branch validation', 'rejected', len(rejected))
+    return rejected
